@@ -321,6 +321,48 @@ def check(rep, F, tier, replay=None):
             rep.inst("CAP-always")
             if not any(mp.dominated_by(fn, bi, cb) for cb in caps):
                 rep.violation("CAP-always", key, "%s has a success return (%s) that is not dominated by the copy of the original bytes: some decoded values come back without their bytes and are re-encoded canonically" % (key, facts.loc_str(loc, fn)), {"function": fid})
+    # (6c) R-break: inside byte-capturing readers every nested container reader consumes its own Break
+    rep.rule("R-break", "in the call closure of the byte-capturing readers (PlutusData, witness-set parts) every raw.array() / raw.map() has its indefinite case discharged on the SAME length value: a Break read (special / is_break_tag) under a switch on that length, or check_len_indefinite(raw, len) - otherwise the reader stops one byte early and the captured original bytes lose their closing 0xff")
+    roots_ = F.by_key("<PlutusData as serialization::traits::Deserialize>::deserialize") + F.by_key("serialization::witnesses::transaction_witnesses_set::deserialize")
+    seen_, work_ = set(), list(roots_)
+    while work_:
+        f_ = work_.pop()
+        if f_ in seen_:
+            continue
+        seen_.add(f_)
+        for sub_ in [f_] + [c for c in F.fns if c.startswith(f_ + "::{closure")]:
+            for c_ in F.calls(sub_):
+                if c_.to in F.fns and c_.to not in seen_ and ("serializ" in c_.to or "Deserialize" in c_.to):
+                    work_.append(c_.to)
+    n_rb = 0
+    for f_ in sorted(seen_):
+        for sub_ in [f_] + [c for c in F.fns if c.startswith(f_ + "::{closure")]:
+            fn_ = F.fns[sub_]
+            org_ = None
+            for c_ in F.calls(sub_):
+                to_ = c_.to or ""
+                if not (to_.endswith("Deserializer::<R>::array") or to_.endswith("Deserializer::<R>::map")):
+                    continue
+                n_rb += 1
+                rep.inst("R-break")
+                org_ = org_ or ff.Origins(F, sub_)
+                tag_ = "call:%s@%d" % (to_, c_.bb)
+                ok_ = False
+                for c2 in F.calls(sub_):
+                    t2 = c2.to or ""
+                    if t2.endswith("check_len_indefinite"):
+                        o_ = set()
+                        for a_ in fn_["bbs"][c2.bb]["t"][3]:
+                            o_ |= org_.of_operand(a_)
+                        if tag_ in o_:
+                            ok_ = True
+                    if t2.endswith("Deserializer::<R>::special") or t2.endswith("is_break_tag"):
+                        for s_, edge_, d_ in mp.dominating_guards(F, sub_, c2.bb, org_):
+                            if d_["kind"] == "discr" and tag_ in d_["of"]:
+                                ok_ = True
+                if not ok_:
+                    rep.violation("R-break", "%s|%s" % (F.key(sub_), to_.rsplit("::", 1)[-1]), "%s opens a container with raw.%s() (%s) and never consumes the Break of its indefinite form: nested in a byte-preserving value, the enclosing reader captures the bytes without the closing 0xff and re-emits different bytes / another hash" % (F.key(sub_), to_.rsplit("::", 1)[-1], facts.loc_str(fn_["bbs"][c_.bb]["t"][0], fn_)), {})
+    rep.floor("container opens inside byte-capturing reader closures", 25, n_rb)
     # (7) PlutusData co-update + writer
     rep.rule("PD-coupdate", "every function that stores PlutusData.datum also stores original_bytes (so stale bytes can never describe a different datum)")
     npd = 0
